@@ -56,6 +56,13 @@ def impl():
     im.sonar = importlib.import_module("robotpy_ext.common_drivers.xl_max_sonar_ez")
     im.pressure = importlib.import_module("robotpy_ext.common_drivers.pressure_sensors")
     im.builtin = [getattr(im.units, n, None) for n in NAMES]
+    im.names = list(NAMES)
+    U = getattr(im.units, "Unit", None)
+    if U is not None:                      # units somebody added to the module: ids 4, 5, ...
+        for n, o in sorted(vars(im.units).items(), key=lambda kv: kv[0]):
+            if isinstance(o, U) and all(o is not b for b in im.builtin):
+                im.builtin.append(o)
+                im.names.append(n)
     im.devices = None
     return im
 
@@ -215,12 +222,9 @@ def regen_table(im):
     """-> (ok, detail, table, probes); table = [(parent|None, kt, kf)], ids 0..3
     are meter, centimeter, foot, inch, further Unit instances of the module after."""
     U = getattr(im.units, "Unit", None)
-    objs = list(im.builtin)
+    objs = list(im.builtin)                # the four, then further Unit instances by name
     if U is None or any(o is None for o in objs):
         return False, "units module lacks Unit/%s" % NAMES, None, None
-    extra = sorted((n, o) for n, o in vars(im.units).items()
-                   if isinstance(o, U) and all(o is not b for b in objs))
-    objs += [o for _, o in extra]
     # parents that are not module attributes
     i = 0
     while i < len(objs):
@@ -518,7 +522,7 @@ def dec(x):
 
 def check_convert(im, clause, a, b, c, x, y=None):
     """One clause of the property on the built-in units.  -> None | violation"""
-    nm = lambda u: NAMES[u]
+    nm = lambda u: im.names[u]
     base = dict(clause=clause, a=a, b=b, c=c, x=enc(x), y=enc(y))
     if clause == "factor":        # covers identity and the three constants
         r = call_convert(im, a, b, x)
@@ -656,6 +660,7 @@ def oracle_units(im, r, n, first=()):
 def oracle_units_raw(im, xs):
     if not xs:
         return None
+    nu = range(len(im.builtin))            # round trip / composition / linearity: every defined unit
     for x in xs:
         for a in range(4):
             for b in range(4):
@@ -663,12 +668,12 @@ def oracle_units_raw(im, xs):
                 if v:
                     return v
     for x in xs:
-        for a in range(4):
-            for b in range(4):
+        for a in nu:
+            for b in nu:
                 v = check_convert(im, "there_and_back", a, b, None, x)
                 if v:
                     return v
-                for c in range(4):
+                for c in nu:
                     v = check_convert(im, "composition", a, b, c, x)
                     if v:
                         return v
@@ -676,8 +681,8 @@ def oracle_units_raw(im, xs):
         y = xs[(i * 7 + 3) % len(xs)]
         if isinstance(x, int) or isinstance(y, int) or not math.isfinite(x + y):
             continue
-        for a in range(4):
-            for b in range(4):
+        for a in nu:
+            for b in nu:
                 v = check_convert(im, "linear", a, b, None, x, y)
                 if v:
                     return v
